@@ -233,8 +233,26 @@ func (w ACLWorld) Generate(rng *rand.Rand, tier string, runIdx uint64) simkit.Pl
 			Step{Op: "resolve", Text: SecretUUID(tb), Flag: true},
 			Step{Op: "resolve", Text: SecretUUID(ta), Flag: true})
 	}
+	if w.Prop == "C09" && simkit.Chance(rng, 50) {
+		// data for the endpoint probes: keys and nodes whose names the generated rules speak about
+		for _, k := range epKeys {
+			if simkit.Chance(rng, 70) {
+				p.Steps = append(p.Steps, Step{Op: "kv.set", Key: k, Val: "v"})
+			}
+		}
+		for k, nd := range epNodes {
+			if simkit.Chance(rng, 70) {
+				p.Steps = append(p.Steps, Step{Op: "register", Node: nd, NodeID: NodeUUID(20 + k), Addr: fmt.Sprintf("10.0.1.%d", k+1)})
+			}
+		}
+		p.Cfg.Extra["epdata"] = "on"
+	}
 	n := 14 + rng.IntN(50)
 	for len(p.Steps) < n {
+		if p.Cfg.Extra["epdata"] == "on" && simkit.Chance(rng, 10) {
+			p.Steps = append(p.Steps, Step{Op: "epfilter", Text: secret(), N: int64(rng.Uint32())})
+			continue
+		}
 		if simkit.Chance(rng, 3) {
 			shared()
 			continue
@@ -1261,6 +1279,10 @@ func (w ACLWorld) execute(p *Plan, r *simkit.Run) *simkit.Violation {
 			if v := s.judgeFilter(i, st); v != nil {
 				return v
 			}
+		case "epfilter":
+			if v := s.judgeEndpoints(i, st); v != nil {
+				return v
+			}
 		case "rpc.fail":
 			s.rpcFail = int(st.N)
 		case "advance":
@@ -1327,4 +1349,160 @@ func (s *aclWorldState) reachable(tok *structs.ACLToken) []string {
 		}
 	}
 	return ids
+}
+
+// ---- C09 through the real read endpoints
+
+var epKeys = []string{"a", "a/b", "ab", "web", "zz", "n1/x"}
+var epNodes = []string{"n1", "n2", "a", "ab", "web", "zz"}
+
+// judgeEndpoints: the real KVS.List and Catalog.ListNodes endpoints on the server shell (ACLs enabled, the
+// server's resolver) under the token: the reply holds exactly the stored entries the token's authorizer may
+// read and says "filtered" iff something was left out - for an unblocked call, and for a call that was blocked
+// and woken by the removal of an entry the token may not read (endpoints fill and filter the same reply once
+// per evaluation).
+func (s *aclWorldState) judgeEndpoints(i int, st Step) *simkit.Violation {
+	authz, err := s.resolve(st.Text, false)
+	if err != nil || authz == nil {
+		return nil
+	}
+	shell := s.C.Shell
+	if err := consul.VerifServeReads(shell); err != nil {
+		panic(err)
+	}
+	mk := func(what, detail string) *simkit.Violation {
+		return &simkit.Violation{Property: "C09", Class: "filter-mismatch", Invariant: "endpoint-reply-holds-exactly-the-readable-entries", Step: i, Culprit: what, Detail: what + ": " + detail}
+	}
+	s.r.Hit("probe.endpoint-filter-probes")
+	type view struct {
+		all, want []string
+	}
+	stored := func() (keys, nodes view) {
+		stt := s.C.L.State()
+		_, ents, _ := stt.KVSList(nil, "", nil)
+		for _, e := range ents {
+			keys.all = append(keys.all, e.Key)
+			if authz.KeyRead(e.Key, nil) == acl.Allow {
+				keys.want = append(keys.want, e.Key)
+			}
+		}
+		_, nds, _ := stt.Nodes(nil, nil, "")
+		for _, n := range nds {
+			nodes.all = append(nodes.all, n.Node)
+			if authz.NodeRead(n.Node, nil) == acl.Allow {
+				nodes.want = append(nodes.want, n.Node)
+			}
+		}
+		return
+	}
+	judge := func(what string, got []string, flag bool, v view) *simkit.Violation {
+		if fmt.Sprint(got) != fmt.Sprint(v.want) {
+			return mk(what, fmt.Sprintf("stored %v, the reply holds %v, the token's authorizer allows exactly %v", v.all, got, v.want))
+		}
+		if flag != (len(v.want) != len(v.all)) {
+			return mk(what, fmt.Sprintf("stored %v, the reply holds %v, yet the filtered flag is %v", v.all, got, flag))
+		}
+		s.r.Hit("probe.endpoint-filter-cases")
+		return nil
+	}
+	kvList := func(min uint64) (idx uint64, got []string, flag bool, err error) {
+		var rep structs.IndexedDirEntries
+		args := &structs.KeyRequest{Datacenter: "dc1", Key: "", QueryOptions: structs.QueryOptions{Token: st.Text, MinQueryIndex: min, MaxQueryTime: time.Minute}}
+		err = consul.VerifRead(shell, "KVS.List", args, &rep)
+		for _, e := range rep.Entries {
+			got = append(got, e.Key)
+		}
+		return rep.Index, got, rep.ResultsFilteredByACLs, err
+	}
+	nodeList := func(min uint64) (idx uint64, got []string, flag bool, err error) {
+		var rep structs.IndexedNodes
+		args := &structs.DCSpecificRequest{Datacenter: "dc1", QueryOptions: structs.QueryOptions{Token: st.Text, MinQueryIndex: min, MaxQueryTime: time.Minute}}
+		err = consul.VerifRead(shell, "Catalog.ListNodes", args, &rep)
+		for _, n := range rep.Nodes {
+			got = append(got, n.Node)
+		}
+		return rep.Index, got, rep.ResultsFilteredByACLs, err
+	}
+	keys, nodes := stored()
+	kidx, kgot, kflag, err := kvList(0)
+	if err != nil {
+		return nil // (the token does not resolve on the endpoint either: expired or deleted meanwhile)
+	}
+	if v := judge("KVS.List", kgot, kflag, keys); v != nil {
+		return v
+	}
+	nidx, ngot, nflag, err := nodeList(0)
+	if err != nil {
+		return nil
+	}
+	if v := judge("Catalog.ListNodes", ngot, nflag, nodes); v != nil {
+		return v
+	}
+	// blocked calls, woken by the removal of one entry the token may not read
+	unreadable := func(v view) string {
+		for _, x := range v.all {
+			ok := false
+			for _, y := range v.want {
+				ok = ok || x == y
+			}
+			if !ok {
+				return x
+			}
+		}
+		return ""
+	}
+	type blocked struct {
+		got  []string
+		flag bool
+		err  error
+	}
+	if st.N%4 == 0 {
+		// leave a single unreadable key, so that its removal is the difference between "filtered" and not
+		for len(keys.all)-len(keys.want) > 1 {
+			s.C.Do(Step{Op: "kv.delete", Key: unreadable(keys)})
+			keys, _ = stored()
+		}
+		if kidx, _, _, err = kvList(0); err != nil {
+			return nil
+		}
+	}
+	if k := unreadable(keys); k != "" && st.N%2 == 0 {
+		ch := make(chan blocked, 1)
+		go func() { _, g, f, e := kvList(kidx); ch <- blocked{g, f, e} }()
+		synctest.Wait()
+		s.C.Do(Step{Op: "kv.delete", Key: k})
+		synctest.Wait()
+		select {
+		case b := <-ch:
+			if b.err == nil {
+				keys, _ = stored()
+				if v := judge("KVS.List (blocked, woken by the removal of "+k+")", b.got, b.flag, keys); v != nil {
+					return v
+				}
+				s.r.Hit("probe.endpoint-filter-blocked-cases")
+			}
+		default:
+			return mk("KVS.List (blocked)", "the call is still parked after a key under its prefix was deleted")
+		}
+	}
+	if n := unreadable(nodes); n != "" && st.N%2 == 1 {
+		ch := make(chan blocked, 1)
+		go func() { _, g, f, e := nodeList(nidx); ch <- blocked{g, f, e} }()
+		synctest.Wait()
+		s.C.Do(Step{Op: "deregister", Node: n})
+		synctest.Wait()
+		select {
+		case b := <-ch:
+			if b.err == nil {
+				_, nodes = stored()
+				if v := judge("Catalog.ListNodes (blocked, woken by the removal of "+n+")", b.got, b.flag, nodes); v != nil {
+					return v
+				}
+				s.r.Hit("probe.endpoint-filter-blocked-cases")
+			}
+		default:
+			return mk("Catalog.ListNodes (blocked)", "the call is still parked after a node was deregistered")
+		}
+	}
+	return nil
 }
